@@ -93,6 +93,10 @@ func c09Leaves(level int) []c09Leaf {
 		{"array-num", "array", "", J{"type": "array", "items": J{"type": "number"}}, A{1.5}, true},
 		{"array-bool", "array", "", J{"type": "array", "items": J{"type": "boolean"}}, A{true, false}, true},
 		{"array-empty-default", "array", "", J{"type": "array", "items": J{"type": "string"}}, A{}, true},
+		// text that a format string, a Go string literal or a raw string would mangle, as scalar default and as array elements
+		{"string-text-default", "string", "", J{"type": "string"}, "50% off %d %s 100%% \"q\" \\ `t` é", true},
+		{"array-str-text-default", "array", "", J{"type": "array", "items": J{"type": "string"}}, A{"%Y-%m-%d", "50% off", "100%%", "\"q\" \\ `t`", "é\n"}, true},
+		{"array-str-percent-end-default", "array", "", J{"type": "array", "items": J{"type": "string"}}, A{"a%", "%"}, true},
 		{"enum-str", "enum", "", J{"type": "string", "enum": A{"a", "b"}}, "b", false},
 		{"enum-str-untyped", "enum", "", J{"enum": A{"a", "b"}}, "a", false},
 		{"enum-int", "enum", "", J{"type": "integer", "enum": A{1, 2, 3}}, 2, false},
